@@ -38,6 +38,7 @@ def _has_strings(terms):
 def _run_cvc5(smt2, timeout_s):
     import re
     smt2 = re.sub(r"\(\(_ ([A-Za-z_][A-Za-z_0-9]*) 0\)", r"(\1", smt2)      # z3's rendering of define-fun-rec applications
+    smt2 = smt2.replace("\\|", "!")          # z3 escapes a '|' inside a quoted symbol; cvc5 does not accept that: rename consistently
     with tempfile.NamedTemporaryFile("w", suffix=".smt2", delete=False, dir=_CFG.get("tmp")) as f:
         f.write("(set-logic ALL)\n")
         f.write(smt2)
@@ -233,7 +234,59 @@ def solve_all(obligations, timeout=20, workers=None, cross=False, seed=0, cvc5=T
     if not obligations:
         return []
     workers = workers or max(1, min(12, (os.cpu_count() or 4) - 2))
+    return _run_tasks(len(obligations), workers, hard_limit=4 * timeout + 20)
+
+
+def _child(idx, conn):
+    try:
+        conn.send(_solve_one(idx))
+    except BaseException as e:          # noqa: a solver crash is an undecided obligation, never a verdict
+        conn.send({"idx": idx, "name": _OBLIGS[idx].name, "status": "unknown", "solver": None, "time": 0.0, "model": None,
+                   "detail": f"solver process failed: {type(e).__name__}: {e}"})
+    finally:
+        conn.close()
+
+
+def _run_tasks(n, workers, hard_limit):
+    """One forked process per VC with a HARD wall-clock limit: z3 occasionally ignores its own time-out inside the sequence /
+    quantifier engines, and a solver that never returns must not hang the check.  A killed task is an undecided obligation."""
     ctx = mp.get_context("fork")
-    with ctx.Pool(workers, maxtasksperchild=8) as pool:
-        results = pool.map(_solve_one, range(len(obligations)), chunksize=1)
+    results = [None] * n
+    pending = list(range(n))
+    running = {}
+    while pending or running:
+        while pending and len(running) < workers:
+            i = pending.pop(0)
+            parent, child = ctx.Pipe(duplex=False)
+            p = ctx.Process(target=_child, args=(i, child), daemon=True)
+            p.start()
+            child.close()
+            running[i] = (p, parent, time.time())
+        done = []
+        for i, (p, conn, t0) in running.items():
+            if conn.poll(0):
+                try:
+                    results[i] = conn.recv()
+                except (EOFError, OSError):
+                    results[i] = None
+                done.append(i)
+            elif not p.is_alive():
+                done.append(i)
+            elif time.time() - t0 > hard_limit:
+                p.kill()
+                results[i] = {"idx": i, "name": _OBLIGS[i].name, "status": "unknown", "solver": None, "time": round(time.time() - t0, 1),
+                              "model": None, "detail": f"solver exceeded the hard limit of {hard_limit}s and was killed", "answers": {}}
+                done.append(i)
+        for i in done:
+            p, conn, _ = running.pop(i)
+            p.join(timeout=1)
+            try:
+                conn.close()
+            except OSError:
+                pass
+            if results[i] is None:
+                results[i] = {"idx": i, "name": _OBLIGS[i].name, "status": "unknown", "solver": None, "time": 0.0, "model": None,
+                              "detail": "solver process died", "answers": {}}
+        if not done:
+            time.sleep(0.01)
     return results
